@@ -417,26 +417,32 @@ def playback(h, info, resolved_labels_cmd, outdir):
     scratch = tempfile.mkdtemp(prefix="vreplay.", dir=os.environ.get("VERIF_SCRATCH", "/tmp"))
     res = {"reproduced_dev": None, "reproduced_release": None, "test_path": None, "log": ""}
     _keep = res
-    try:
-        crate = os.path.join(scratch, "kani-harness")
-        shutil.copytree(crate_for_repo(HARNESS_CRATE, "kani"), crate, ignore=shutil.ignore_patterns("target"))
+    # the counterexample is extracted in the crate directory the goto binaries were built from
+    # (same crate hash => the resolved unwindset labels stay valid); its sources are saved and
+    # restored, the generated test then runs natively in a scratch copy
+    build_crate = crate_for_repo(HARNESS_CRATE, "kani") if os.environ.get("VERIF_REPO") else HARNESS_CRATE
+    if os.environ.get("VERIF_REPO"):
+        build_crate = os.path.join(WORK, "crate-copy-kani")
+    src = None
+    cmd = ["cargo", "kani", "-Z", "stubbing", "-Z", "concrete-playback", "--concrete-playback=print",
+           "--harness", info["pretty"], "--exact", "--target-dir", TARGET]
+    extra = []
+    if resolved_labels_cmd:
+        extra = ["-Z", "unstable-options", "--cbmc-args", "--unwindset", resolved_labels_cmd]
+    rc, out, _, to, _ = _run(cmd + extra, timeout=max(900, 3 * h.timeout), cwd=build_crate)
+    res["log"] += _quiet(out)[-6000:]
+    tests = re.findall(r"(#\[test\]\s*\nfn (kani_concrete_playback_\w+)\(\) \{[\s\S]*?\n\})", out or "")
+    crate = os.path.join(scratch, "kani-harness")
+    shutil.copytree(build_crate, crate, ignore=shutil.ignore_patterns("target"))
+    if not os.path.exists(os.path.join(scratch, "vendor")):
         os.symlink(os.path.join(VERIF, "vendor"), os.path.join(scratch, "vendor"))
-        cmd = ["cargo", "kani", "-Z", "stubbing", "-Z", "concrete-playback", "--concrete-playback=inplace",
-               "--harness", info["pretty"], "--exact", "--target-dir", TARGET]
-        unwind = h.unwind if h.unwind is not None else info["unwind"]
-        extra = []
-        if resolved_labels_cmd:
-            extra = ["-Z", "unstable-options", "--cbmc-args", "--unwindset", resolved_labels_cmd]
-        rc, out, _, to, _ = _run(cmd + extra, timeout=max(900, 3 * h.timeout), cwd=crate)
-        res["log"] += _quiet(out)[-6000:]
-        # find the injected test
-        src = None
-        for p in glob.glob(os.path.join(crate, "src", "*.rs")):
-            t = open(p).read()
-            m = re.search(r"#\[test\]\s*\n\s*fn (kani_concrete_playback_\w+)", t)
-            if m:
-                src = (p, m.group(1), t)
-                break
+    if tests:
+        code, tname = tests[0]
+        modfile = os.path.join(crate, info.get("file") or "src/lib.rs")
+        with open(modfile, "a") as f:
+            f.write("\n" + code + "\n")
+        src = (modfile, tname, code)
+    try:
         if not src:
             res["log"] += "\n[vcheck] no concrete playback test was generated"
             return res
